@@ -288,6 +288,18 @@ class PlanJoinTablesQuery:
         query_in.targets = query_traversal(query_in.targets, find_selects)
         query_traversal(query_in.where, find_selects)
 
+        # ... and in the ON clauses (they were replaced by a made-up table name that no step defines)
+        def plan_on_clause_selects(node):
+            if isinstance(node, Join):
+                plan_on_clause_selects(node.left)
+                plan_on_clause_selects(node.right)
+                if node.condition is not None:
+                    condition = query_traversal(node.condition, find_selects)
+                    if condition is not None:
+                        node.condition = condition
+
+        plan_on_clause_selects(query_in.from_table)
+
         query = copy.deepcopy(query_in)
 
         # replace sub selects, with identifiers with links to original selects
